@@ -326,7 +326,10 @@ class Decompiler(object):
                         decompiler.instructions[i] = (x, y, opname, [decompiler.for_iter_pos])
                         decompiler.conditions_end = y
 
-        i = decompiler.instructions_map[decompiler.conditions_end]
+        # the jumps of an if-expression's test in a yielded expression / lambda body need the same analysis as the
+        # jumps of a condition, so it covers every instruction, not only those before conditions_end
+        # (py 3.12+, where the value of and/or is compiled with COPY and recognised separately)
+        i = len(decompiler.instructions) - 1 if PY312 else decompiler.instructions_map[decompiler.conditions_end]
         while i > 0:
             pos, next_pos, opname, arg = decompiler.instructions[i]
             if pos in decompiler.jump_map:
@@ -731,7 +734,7 @@ class Decompiler(object):
     def conditional_jump_new(decompiler, endpos, if_true):
         expr = decompiler.stack.pop()
         explicit = False
-        if decompiler.pos >= decompiler.conditions_end or decompiler.pos in decompiler.value_jumps:
+        if decompiler.pos in decompiler.value_jumps or (not PY312 and decompiler.pos >= decompiler.conditions_end):
             clausetype = ast.Or if if_true else ast.And
         elif decompiler.pos in decompiler.or_jumps:
             clausetype = ast.Or
